@@ -75,7 +75,12 @@ def check_doc(et_doc, lib, tmp, use_write, viol, c, obj=None):
         raw = tmp.read_bytes()
         if len(raw) > 50000:
             c['_last_written'] = raw
-        text1 = raw.decode('utf-8')
+        try:
+            text1 = raw.decode('utf-8')
+        except UnicodeDecodeError as err:
+            viol.append({'sig': sig_of('written-file-is-not-utf-8', et_doc.tag, exc='UnicodeDecodeError'),
+                         'case': {'root': et_doc.tag, 'text': raw[:2000].decode('utf-8', 'replace')}, 'detail': {'msg': str(err)[:160]}})
+            return 'violated'
     else:
         r = lib.call(obj.to_string)
         if r[0] == 'exc':
